@@ -72,6 +72,24 @@ def run(tier, seed):
     OPS.append(('compile invalid-1', invalid('div > > p[')))
     OPS.append(('compile invalid-2', invalid('div > > p[')))
     OPS.append(('compile invalid-3', invalid(':nth-child(2n+ ) , :is(a, b) x |')))
+    # nesting beyond what the interpreter's recursion limit allows: whatever a call does about it, it does the same alone and next to
+    # another such call, and it leaves the process-wide limit as it found it
+
+    def deep(pat):
+        def f():
+            import sys as _s
+            lim0 = _s.getrecursionlimit()
+            try:
+                r = sv.compile(pat)
+                out = 'compiled ' + str(len(repr(r.selectors)) > 0)
+            except RecursionError:
+                out = 'RecursionError'
+            except sv.SelectorSyntaxError:
+                out = 'SelectorSyntaxError'
+            return [out, _s.getrecursionlimit() == lim0]
+        return f
+    OPS.append(('compile deep-a', deep(':is(' * 420 + 'a' + ')' * 420)))
+    OPS.append(('compile deep-b', deep(':not(' * 460 + 'b' + ')' * 460)))
     # an operation that pushes many names nobody has seen before through every shared helper: whatever bounded memo
     # a helper keeps is driven over its bound while the other thread is suspended inside that helper
     fresh_counter = [0]
@@ -94,8 +112,9 @@ def run(tier, seed):
         pairs = [(a, b) for a, b in pairs if a[0].startswith('compile') or a[0].startswith('match')]
         forced = [(a, b) for a, b in pairs if a is not b and (('ns-' in a[0] and 'ns-' in b[0]) or ('custom-' in a[0] and 'custom-' in b[0]) or ('nested-' in a[0] and 'nested-' in b[0])
                                                                or ('invalid-' in a[0] and 'invalid-' in b[0])
-                                                               or ('detached' in a[0] and 'detached' in b[0]))]
-        must = [pq for pq in forced if 'detached' in pq[0][0]]
+                                                               or ('detached' in a[0] and 'detached' in b[0])
+                                                               or ('deep-' in a[0] and 'deep-' in b[0]))]
+        must = [pq for pq in forced if 'detached' in pq[0][0] or 'deep-' in pq[0][0]]
         pairs = rnd.sample([pq for pq in pairs if pq[1][0] != 'flood of new names' and pq[0][0] != 'flood of new names'], 30) + \
             rnd.sample(forced, min(14, len(forced))) + must
         flood = next(o for o in OPS if o[0] == 'flood of new names')
@@ -104,7 +123,7 @@ def run(tier, seed):
     else:
         # every pair of operations would take many hours at 100+ preemption points each: all pairs that share state by
         # construction plus a large sample of the rest
-        special = [(a, b) for a, b in pairs if a is not b and any(t in a[0] and t in b[0] for t in ('ns-', 'custom-', 'nested-', 'invalid-', 'detached'))]
+        special = [(a, b) for a, b in pairs if a is not b and any(t in a[0] and t in b[0] for t in ('ns-', 'custom-', 'nested-', 'invalid-', 'detached', 'deep-'))]
         flood = next(o for o in OPS if o[0] == 'flood of new names')
         pairs = special + [(a, flood) for a in OPS if a is not flood][:12] + rnd.sample(pairs, 160)
     nk = 25 if tier == 'quick' else 80
